@@ -439,7 +439,13 @@ def opClient (line : String) : String :=
 
 def handle (line : String) : String :=
   if line.startsWith "client " then opClient line.trimAscii.toString else
-  match line.trimAscii.toString.splitOn " " with
+  -- `seq@K` / `wf@K` (every client read limited to K bytes in the harness): the model does not depend on how the
+  -- stream is cut into reads, so the suffix is dropped
+  let toks := line.trimAscii.toString.splitOn " "
+  let toks := match toks with
+    | op :: rest => (op.splitOn "@").headD op :: rest
+    | [] => []
+  match toks with
   | ["len.ser", style, n] =>
     match parseLen style, n.toNat? with
     | some l, some n => resBytes (l.ser n)
